@@ -305,7 +305,7 @@ func joinArgsOK(call *ssa.Call, dirOK, nameOK func(ssa.Value) bool) bool {
 			}
 			for _, r2 := range *ia.Referrers() {
 				if st, ok := r2.(*ssa.Store); ok {
-					vals[idx.Int64()] = st.Val
+					vals[constInt64(idx)] = st.Val
 				}
 			}
 		}
@@ -469,7 +469,7 @@ func c18UnlinkBeforeCreate(c *Ctx) {
 		switch callee(call) {
 		case "os.OpenFile":
 			if k, isK := call.Common().Args[1].(*ssa.Const); isK && k.Value != nil {
-				fl := k.Int64()
+				fl := constInt64(k)
 				if fl&0x40 == 0 {
 					return 0, false // no O_CREATE
 				}
